@@ -4,6 +4,7 @@ import (
 	"bytes"
 	"container/heap"
 	"fmt"
+	"reflect"
 	"strconv"
 	"strings"
 )
@@ -183,6 +184,12 @@ func (l *orderColumnsRow) Less(r *orderColumnsRow) bool {
 }
 
 func (l *orderColumnsRow) compare(tp Type, lval, rval Column, reverse bool) int {
+	// The per-type comparators assert rval to the dynamic type of lval. Values of
+	// different dynamic types (e.g. a JSON field that is a number in one row and
+	// a string in another) are not ordered: treat them as equal.
+	if reflect.TypeOf(lval) != reflect.TypeOf(rval) {
+		return 0
+	}
 	switch tp {
 	case TSTR:
 		return l.compareBytes(lval, rval, reverse)
